@@ -182,11 +182,13 @@ def _ref_items(prev, items, caps, is_async, wdepth=0):
     return prev
 
 
-def program_ref(p, anyof=False):
+def program_ref(p, anyof=False, joiner=None, fc="futures"):
     """Rust expression text (a block) that evaluates the program per R. For async macros the text is an
     `async move { .. }` block (run it with block_on). With anyof=True (async try macros) the block yields a
     String: the Debug form of the success value, or `ANYOF[f1|f2|..]` listing every branch that fails in
-    the earliest failing step (any of them may be returned by an async try macro)."""
+    the earliest failing step (any of them may be returned by an async try macro).
+    joiner: None | {"when": "before"|"after", "reverse": bool}: a logging custom joiner — one event `j.x.a:<arity>` per
+    step with more than one active branch, before/after the branch chains, which run in reverse order when reverse."""
     n = len(p.branches)
     steps = [split_steps(b.items) for b in p.branches]
     depths = [len(s) for s in steps]
@@ -211,15 +213,22 @@ def program_ref(p, anyof=False):
             if k == 0:
                 prev = "(%s)" % caps.operand(b.init)
             else:
-                prev = "futures::future::ready(%s)" % var[i] if is_async else "{ %s }" % var[i]
+                prev = "%s::future::ready(%s)" % (fc, var[i]) if is_async else "{ %s }" % var[i]
             e = _ref_items(prev, steps[i][k], caps, is_async)
             caps_all.extend(caps.defs)
             exprs.append((i, e))
         lines.extend(caps_all)
+        multi = len(active) > 1
+        if joiner and multi and joiner["when"] == "before":
+            lines.append("ev(\"j.x.a\", &%dusize);" % len(active))
+        if joiner and multi and joiner.get("reverse"):
+            exprs = list(reversed(exprs))
         for i, e in exprs:
             b = p.branches[i]
             mut = "mut " if (b.let and b.let[1]) else ""
             lines.append("let %s%s = %s%s;" % (mut, var[i], e, aw))
+        if joiner and multi and joiner["when"] == "after":
+            lines.append("ev(\"j.x.a\", &%dusize);" % len(active))
         if is_try and anyof:
             cond = " || ".join("%s.%s()" % (var[i], isfail) for i in active)
             pushes = " ".join(
@@ -257,5 +266,5 @@ def program_ref(p, anyof=False):
     lines.append(fin)
     body = "'r: {\n    %s\n}" % "\n    ".join(lines)
     if is_async:
-        return "async move { use futures::{FutureExt, TryFutureExt, StreamExt, TryStreamExt}; %s }" % body
+        return "async move { use %s::{FutureExt, TryFutureExt, StreamExt, TryStreamExt}; %s }" % (fc, body)
     return body
